@@ -41,6 +41,10 @@ func (p *ParamProb) Marshal(proto int) ([]byte, error) {
 		b[0] = byte(p.Pointer)
 		return b, nil
 	case iana.ProtocolIPv6ICMP:
+		// RFC 4884 does not extend the ICMPv6 parameter problem message.
+		if len(p.Extensions) > 0 {
+			return nil, errInvalidExtension
+		}
 		b := make([]byte, p.Len(proto))
 		binary.BigEndian.PutUint32(b[:4], uint32(p.Pointer))
 		copy(b[4:], p.Data)
